@@ -21,7 +21,7 @@ from ..algebra_lin import linear_form
 FILESET = "typhon/files/fileset.py"
 TIMEUTILS = "typhon/utils/timeutils.py"
 TREES = "typhon/trees.py"
-EXPECT = {"C01.semiopen": 4, "C01.prune": 6, "C01.anchor": 3, "C01.exclude": 3, "C01.blacklist": 3, "C01.sortkey": 2, "C01.bundle": 2,
+EXPECT = {"C01.semiopen": 4, "C01.prune": 7, "C01.anchor": 3, "C01.exclude": 3, "C01.blacklist": 3, "C01.sortkey": 2, "C01.bundle": 2,
           "C01.trunc": 1, "C01.restable": 2, "C01.len": 3, "C01.pathstate": 1, "C01.reset": 1}
 
 US = {"microseconds": 1, "milliseconds": 1000, "seconds": 10 ** 6, "minutes": 60 * 10 ** 6, "hours": 3600 * 10 ** 6, "days": 86400 * 10 ** 6, "weeks": 7 * 86400 * 10 ** 6}
@@ -212,14 +212,59 @@ def rule_prune(ctx):
     if cp:
         s_arg, e_arg = norm(cp[0].args[1]), norm(cp[0].args[2])
         gflow = Flow(g)
-        sv = gflow.resolve(cp[0].args[1], at=cp[0], depth=3, stop=(gs, ge))
-        ev = gflow.resolve(cp[0].args[2], at=cp[0], depth=3, stop=(gs, ge))
+        accs = tuple(st.targets[0].id for st in walk_no_nested(g.node) if isinstance(st, ast.Assign) and isinstance(st.targets[0], ast.Name)
+                     and any(isinstance(n_, ast.Name) and n_.id == st.targets[0].id for n_ in ast.walk(st.value)))
+        sv = gflow.resolve(cp[0].args[1], at=cp[0], depth=3, stop=(gs, ge) + accs)
+        ev = gflow.resolve(cp[0].args[2], at=cp[0], depth=3, stop=(gs, ge) + accs)
         fact = "%s = %s; %s = %s" % (s_arg, norm(sv), e_arg, norm(ev))
-        unit = "self._get_time_resolution(subdir_chunk)[0]"
-        okt = norm(sv).replace(" ", "") == ("set_time_resolution(%s,%s)" % (gs, unit)).replace(" ", "") \
-            and norm(ev).replace(" ", "") == ("set_time_resolution(%s,%s)" % (ge, unit)).replace(" ", "")
+        # both bounds truncated with set_time_resolution(<bound>, <unit>), the same unit, in this order
+        okt = False
+        units = []
+        for v_, b_ in ((sv, gs), (ev, ge)):
+            if isinstance(v_, ast.Call) and dotted(v_.func) == "set_time_resolution" and len(v_.args) == 2 and norm(v_.args[0]) == b_:
+                units.append(v_.args[1])
+        if len(units) != 2:
+            if not (calls_in(sv, "set_time_resolution") or calls_in(ev, "set_time_resolution")):
+                raise AnalysisError("_get_search_dirs: truncation of the search bounds not found")
+        else:
+            okt = norm(units[0]) == norm(units[1])
     ctx.ob("FileSet._get_search_dirs.truncate", okt, fact, "start_check / end_check = the search bounds truncated to the unit of this directory level, in this order",
            node=cp[0] if cp else g.node, func=g)
+    # the unit is the finest one among ALL directory levels down to the current one: a directory's attributes include those
+    # parsed from its parents, so truncating to the unit of the current level alone (which falls back to 'year' for a level
+    # without temporal placeholders) compares a date with a bound that is too coarse and prunes directories inside the range
+    if cp and len(units) == 2:
+        u = units[0]
+        src = None
+        if isinstance(u, ast.Subscript) and isinstance(u.value, ast.Call) and dotted(u.value.func) == "self._get_time_resolution" and u.value.args \
+                and isinstance(u.slice, ast.Constant) and u.slice.value == 0:
+            src = u.value.args[0]
+        if src is None:
+            raise AnalysisError("_get_search_dirs: truncation unit %s is not self._get_time_resolution(<levels>)[0]" % norm(u))
+        lp_ = [st for st in gflow.stmts if isinstance(st, ast.For) and norm(st.iter) == "self._sub_dir_chunks"]
+        if len(lp_) != 1 or not isinstance(lp_[0].target, ast.Name):
+            raise AnalysisError("_get_search_dirs: loop over the sub directory levels not found")
+        chunk = lp_[0].target.id
+        okacc = False
+        why = "unit derived from %s" % norm(src)
+        if isinstance(src, ast.Name) and src.id != chunk:
+            # an accumulator: initialised before the loop, extended by the chunk on EVERY iteration (before any `continue`)
+            upd = [st for st in lp_[0].body if isinstance(st, ast.Assign) and norm(st.targets[0]) == src.id]
+            init = [d_ for d_ in gflow.defs(src.id, lp_[0]) if d_ != "param" and not any(d_ is x for x in ast.walk(lp_[0]))]
+            first_jump = min([k_ for k_, st in enumerate(lp_[0].body) if any(isinstance(n_, ast.Continue) for n_ in ast.walk(st))] or [len(lp_[0].body)])
+            okacc = len(upd) == 1 and lp_[0].body.index(upd[0]) < first_jump and len(init) == 1 \
+                and any(isinstance(n_, ast.Name) and n_.id == chunk for n_ in ast.walk(upd[0].value)) \
+                and any(isinstance(n_, ast.Name) and n_.id == src.id for n_ in ast.walk(upd[0].value))
+            why = "unit from %s, accumulated as %s" % (src.id, norm(upd[0]) if upd else None)
+        elif isinstance(src, ast.Name) and src.id == chunk:
+            why = "unit from the current level `%s` alone" % chunk
+        elif norm(src) in ("self._sub_dir",):
+            okacc = True         # the whole directory part: at least as fine as every level
+        else:
+            raise AnalysisError("_get_search_dirs: source %s of the truncation unit not understood" % norm(src))
+        ctx.ob("FileSet._get_search_dirs.unit", okacc, why,
+               "the finest temporal unit among this and all upper directory levels (the directory's attributes include its parents')",
+               node=cp[0], func=g)
     # _check_placeholders comparison + model
     h = ctx.func(FILESET, "FileSet._check_placeholders")
     hs, he = h.params[2], h.params[3]
